@@ -100,7 +100,7 @@ func checkC09(c *Ctx) {
 	r.Rule("R09m", "the header merge (annotations.CombineHeaders) orders only slices it owns: the service-level header list shared by all methods is never appended into or sorted in place (shared with C15/R15h)", 1)
 	sharedSliceMutation(c, "R09m", func(fn *types.Func) bool { return strings.HasSuffix(fn.Pkg().Path(), "internal/annotations") })
 	r.Rule("R09n", "the emitted merge of service-level and method-level headers keys the merged map by a case-folded name, so a method-level declaration replaces the service-level one of the same (case-insensitive) header", 2)
-	r.Rule("R09o", "annotations.CombineHeaders (the merge behind the OpenAPI parameter list) indexes its name-keyed map by a case-folded name, as the generated Go server's merge does", 3)
+	r.Rule("R09o", "annotations.CombineHeaders (the merge behind the OpenAPI parameter list) indexes its name-keyed map by a case-folded name, as the generated Go server's merge does", 2)
 	c09CombineKeys(c, "R09o")
 	r.Rule("R09p", "the OpenAPI generator never stores, once per loop iteration, the address of a variable that lives across iterations (one shared pointer: every parameter would publish the required flag of the last header)", 1)
 	outerAddrStoredInLoop(c, "R09p", pkgOpenAPI)
@@ -1072,32 +1072,48 @@ func c09CombineKeys(c *Ctx, rid string) {
 		r.Unres(rid, "CombineHeaders", "", "not found")
 		return
 	}
-	decl := c.P.Decls[fn]
-	info := c.P.DeclPkg[fn].TypesInfo
 	n := 0
-	ast.Inspect(decl.Body, func(nd ast.Node) bool {
-		ix, ok := nd.(*ast.IndexExpr)
-		if !ok {
-			return true
+	// CombineHeaders and the functions of its package it hands the map to
+	fns := []*types.Func{fn}
+	for _, f := range c.P.Reach(fn) {
+		if f != fn && f.Pkg() == fn.Pkg() && c.P.Decls[f] != nil {
+			fns = append(fns, f)
 		}
-		tv, ok := info.Types[ix.X]
-		if !ok || tv.Type == nil {
-			return true
+	}
+	for _, f := range fns {
+		decl := c.P.Decls[f]
+		if decl == nil || decl.Body == nil {
+			continue
 		}
-		mt, isMap := tv.Type.Underlying().(*types.Map)
-		if !isMap || !isStringType(mt.Key()) {
-			return true
-		}
-		n++
-		r.Check(caseFolded(info, decl.Body, ix.Index, 0, func(call *ast.CallExpr) (*ast.FuncDecl, *types.Info) {
-			if cal := Callee(info, call); cal != nil && c.P.Decls[cal] != nil {
-				return c.P.Decls[cal], c.P.DeclPkg[cal].TypesInfo
+		info := c.P.DeclPkg[f].TypesInfo
+		ast.Inspect(decl.Body, func(nd ast.Node) bool {
+			ix, ok := nd.(*ast.IndexExpr)
+			if !ok {
+				return true
 			}
-			return nil, nil
-		}), rid, fmt.Sprintf("CombineHeaders: %s is indexed by a case-folded name (index site %d)", types.ExprString(ix.X), n), c.P.Pos(ix.Pos()),
-			"CombineHeaders indexes "+types.ExprString(ix)+" by the declared spelling: a method-level header spelled in another letter case does not replace the service-level one, the operation publishes two parameters for one (case-insensitive) header and the generated servers disagree with the document about which declaration is in force")
-		return true
-	})
+			tv, ok := info.Types[ix.X]
+			if !ok || tv.Type == nil {
+				return true
+			}
+			mt, isMap := tv.Type.Underlying().(*types.Map)
+			if !isMap || !isStringType(mt.Key()) {
+				return true
+			}
+			if pt, ok := mt.Elem().(*types.Pointer); !ok || !typeIsNamed(pt.Elem(), "sebuf/http", "Header") {
+				return true
+			}
+			n++
+			r.Check(caseFolded(info, decl.Body, ix.Index, 0, func(call *ast.CallExpr) (*ast.FuncDecl, *types.Info) {
+				if cal := Callee(info, call); cal != nil && c.P.Decls[cal] != nil {
+					return c.P.Decls[cal], c.P.DeclPkg[cal].TypesInfo
+				}
+				return nil, nil
+			}), rid, fmt.Sprintf("%s: %s is indexed by a case-folded name (index site %d)", f.Name(), types.ExprString(ix.X), n), c.P.Pos(ix.Pos()),
+				f.Name()+" indexes "+types.ExprString(ix)+" by the declared spelling: a method-level header spelled in another letter case does not replace the service-level one, the operation publishes two parameters for one (case-insensitive) header and the generated servers disagree with the document about which declaration is in force")
+			return true
+		})
+	}
+	decl := c.P.Decls[fn]
 	if n == 0 {
 		r.Unres(rid, "CombineHeaders name-keyed map", c.P.Pos(decl.Pos()), "no map indexed by header name found: the merge by name changed shape")
 	}
